@@ -256,7 +256,7 @@ def run_eager(pp, R, prog):
         sel = r.get('sel')
         if sel is None or sel['t'] == 'plate':
             return obj
-        return obj[rsel.to_py(sel)]
+        return rsel.select(obj, sel)
     snap()
     for idx, s in enumerate(real_steps(prog)):
         k = s['op']
@@ -337,7 +337,7 @@ def run_recipe(pp, R, prog, bake=True, uses_as_list=False):
             return obj
         key = (r['o'], repr(sel))
         if key not in rr.slices:
-            rr.slices[key] = obj[rsel.to_py(sel)]
+            rr.slices[key] = rsel.select(obj, sel)
             rr.fingerprints.append((f"slice:{r['o']}", rr.slices[key], bench.view(rr.slices[key], pp)))
         return rr.slices[key]
     ridx = -1
